@@ -61,6 +61,7 @@ Inductive event :=
 | EvClaimFail (p : part)               (* the claim could not be created *)
 | EvDeliver (p : part) (o : Z)         (* the handler receives the record at offset o *)
 | EvClaimReturn (p : part)
+| EvClaimError (p : part) (delivered : bool)   (* an error of the claim's partition consumer reaches handleError; delivered: it got onto Errors() *)
 | EvCleanup
 | EvStored (p : part) (o : Z)          (* the coordinator stored o as the group's position *)
 | EvFinalCommit                        (* offsetManager.Close finished *)
@@ -242,6 +243,7 @@ Inductive input :=
 | IClaimGo (p : part) (a1 a2 : bool)    (* claim goroutine p runs up to the call of ConsumeClaim; a1 a2: see claim_try *)
 | IDeliver (p : part)
 | IClaimReturn (p : part)
+| IClaimError (p : part) (delivered : bool)   (* the partition consumer of claim p reports an error (Consumer.Return.Errors) *)
 | IHeartbeat (v : hv)
 | ICancel
 | IClose
@@ -378,6 +380,16 @@ Definition step (cf : cfg) (w : world) (i : input) : world * list event :=
           else (w, [])
         | _ => (w, [])
         end
+      | None => (w, [])
+      end
+    else (w, [])
+  | IClaimError p delivered =>
+    (* the claim's forwarder goroutines drain the partition consumer's error channel as long as the claim lives and hand
+       each error to handleError, which never blocks (select with default on the group's Errors() channel): the member's
+       state does not change, whether or not the application reads Errors() *)
+    if claims_live w then
+      match claim_find (s_claims w) p with
+      | Some c => match cl_state c with CRunning => (w, [EvClaimError p delivered]) | _ => (w, []) end
       | None => (w, [])
       end
     else (w, [])
